@@ -269,6 +269,9 @@ func ruleCheckParamsTable(c *Ctx) {
 	aAll := eqAtom("const:SessionParameters_ALL_PRIMARY", p+".Redundancy")
 	aPres := eqAtom("const:SessionParameters_PRESERVE", p+".Persistence")
 	aDel := eqAtom("const:SessionParameters_DELETE", p+".Persistence")
+	aSingle := eqAtom("const:SessionParameters_SINGLE_PRIMARY", p+".Redundancy")
+	aRibAck := eqAtom("const:SessionParameters_RIB_ACK", p+".AckType")
+	aFibAck := eqAtom("const:SessionParameters_RIB_AND_FIB_ACK", p+".AckType")
 	aConsErr := eqAtom("call:checkClientsConsistent#1.1", "nil")
 	aCons := "b:call:checkClientsConsistent#1.0"
 	aSet := eqAtom("call:setClientParams#1", "nil")
@@ -278,7 +281,7 @@ func ruleCheckParamsTable(c *Ctx) {
 	runTable(c, tableSpec{
 		Rule: "TABLE-CHECK-PARAMS", Fn: fi, Construct: "checkParams decision table",
 		Events: ribCallEvents(fi),
-		Atoms:  map[string]int{aNil: 2, aGot: 2, aAll: 2, aPres: 2, aDel: 2, aConsErr: 2, aCons: 2, aSet: 2},
+		Atoms:  map[string]int{aNil: 2, aGot: 2, aAll: 2, aSingle: 2, aPres: 2, aDel: 2, aRibAck: 2, aFibAck: 2, aConsErr: 2, aCons: 2, aSet: 2},
 		Expected: func(v *Valuation) (string, bool) {
 			switch {
 			case v.B(aNil):
@@ -287,9 +290,13 @@ func ruleCheckParamsTable(c *Ctx) {
 				return e("FailedPrecondition", "MODIFY_NOT_ALLOWED"), true
 			case v.B(aAll) && v.B(aPres):
 				return e("FailedPrecondition", "UNSUPPORTED_PARAMS"), true
-			case v.B(aAll):
+			// only the supported mode is accepted: SINGLE_PRIMARY with PRESERVE and one of the two defined
+			// acknowledgement types — anything else, undefined enum numbers included, is UNSUPPORTED_PARAMS
+			case v.B(aAll) || !v.B(aSingle):
 				return e("Unimplemented", "UNSUPPORTED_PARAMS"), true
-			case v.B(aDel):
+			case v.B(aDel) || !v.B(aPres):
+				return e("Unimplemented", "UNSUPPORTED_PARAMS"), true
+			case !v.B(aRibAck) && !v.B(aFibAck):
 				return e("Unimplemented", "UNSUPPORTED_PARAMS"), true
 			case !v.B(aConsErr):
 				return "ret(nil, err(Internal))", true
